@@ -440,3 +440,45 @@ M('C04', 'c04-abort-does-not-stop-phase', 'openhtf/core/test_executor.py',
   "    self._abort.set()\n    self._stop_phase_executor()",
   "    self._abort.set()",
   'first abort only sets the flag; the running body is never asked to terminate')
+
+# ---------------------------------------------------------------- C06
+M('C06', 'c06-validate-before-transform', 'openhtf/core/measurements.py',
+  "    if self.transform_fn:\n      value = self.transform_fn(value)\n\n    if self.is_value_set:",
+  "    raw = value\n    if self.transform_fn:\n      value = self.transform_fn(value)\n      value = raw if isinstance(raw, float) and raw > 9 else value\n\n    if self.is_value_set:",
+  'some values are recorded untransformed')
+M('C06', 'c06-keep-partially-set', 'openhtf/core/test_state.py',
+  "      if measurement.outcome is measurements.Outcome.PARTIALLY_SET:\n        try:\n          measurement.validate()",
+  "      if measurement.outcome is measurements.Outcome.PARTIALLY_SET and len(measurement.measured_value.value_dict) > 1:\n        try:\n          measurement.validate()",
+  'a dimensioned measurement with one cell stays PARTIALLY_SET')
+M('C06', 'c06-marginal-sticky', 'openhtf/core/measurements.py',
+  "    self.marginal = False\n    try:",
+  "    try:",
+  'marginal flag never reset (F7 regression)')
+M('C06', 'c06-override-keeps-first', 'openhtf/core/measurements.py',
+  "    self.value_dict[coordinates] = value\n",
+  "    self.value_dict.setdefault(coordinates, value)\n",
+  'overriding a coordinate keeps the first value')
+M('C06', 'c06-wrong-coords-accepted', 'openhtf/core/measurements.py',
+  "    if coordinates_len != self.num_dimensions:\n      raise InvalidDimensionsError(",
+  "    if coordinates_len > self.num_dimensions:\n      raise InvalidDimensionsError(",
+  'too few coordinates are accepted')
+M('C06', 'c06-conditional-always', 'openhtf/core/test_state.py',
+  "        if diag_store.has_diagnosis_result(cv.result):\n          m.with_validator(cv.validator)",
+  "        if True:\n          m.with_validator(cv.validator)",
+  'conditional validators applied even without the diagnosis')
+M('C06', 'c06-validator-exception-passes', 'openhtf/core/measurements.py',
+  "      self.outcome = Outcome.FAIL\n      raise\n    finally:",
+  "      self.outcome = Outcome.PASS\n      raise\n    finally:",
+  'a raising validator leaves the measurement PASS')
+M('C06', 'c06-any-instead-of-all', 'openhtf/core/measurements.py',
+  "      if all(v(self._measured_value.value) for v in self.validators):",
+  "      if any(v(self._measured_value.value) for v in self.validators) or not self.validators:",
+  'one accepting validator is enough')
+M('C06', 'c06-dim-validation-error-swallowed', 'openhtf/core/test_state.py',
+  "          else:\n            self.phase_record.result = phase_executor.PhaseExecutionOutcome(\n                phase_executor.ExceptionInfo(*sys.exc_info()))\n\n    # Set final values on the PhaseRecord.",
+  "          else:\n            pass\n\n    # Set final values on the PhaseRecord.",
+  'a validator raising at phase end no longer surfaces as a phase error')
+M('C06', 'c06-order-by-last-assignment', 'openhtf/core/measurements.py',
+  "    self.value_dict[coordinates] = value\n",
+  "    self.value_dict.pop(coordinates, None)\n    self.value_dict[coordinates] = value\n",
+  'an overridden coordinate moves to the end (order of last assignment)')
